@@ -7,7 +7,7 @@ from .common import SEED, NCPU
 
 NCH = 64
 KERNELS = ("lin", "lin1", "mix")
-METRICS = ("abs", "disc")
+METRICS = ("abs", "disc", "sq")
 
 
 def bag_eval(bag):
@@ -47,6 +47,9 @@ def metr(name, x):
     x = np.asarray(x, dtype=float)
     if name == "abs":
         return np.abs(x[:, None] - x[None, :])
+    if name == "sq":                       # 0,1,2,5 for |xi-xj| = 0,1,2,3+: not a metric (5 > 1 + 2)
+        dd = np.abs(x[:, None] - x[None, :])
+        return np.where(dd <= 2, dd, 5.0)
     return 1.0 - np.eye(len(x))
 
 
